@@ -3,6 +3,11 @@ pub mod core;
 pub mod der;
 pub mod keys;
 pub mod model;
+pub mod c09_deltas;
+pub mod c09_gen;
+pub mod c09_hostile;
+pub mod c09_io;
+pub mod c09_lib;
 pub mod c06_net;
 pub mod c06_src;
 pub mod c07_gen;
